@@ -58,7 +58,27 @@ Fixpoint strs_eqb (a b : list str) : bool :=
   | x :: a', y :: b' => str_eqb x y && strs_eqb a' b'
   | _, _ => false
   end.
-Definition groups_as_params (g : groups) : params := map (fun kv => (fst kv, VStr (snd kv))) g.
+(* kwargs of a sink: a dict whose values are str or None *)
+Definition ostr_eqb (a b : option str) : bool :=
+  match a, b with
+  | None, None => true
+  | Some x, Some y => str_eqb x y
+  | _, _ => false
+  end.
+Fixpoint sget (g : sgroups) (k : str) : option (option str) :=
+  match g with
+  | [] => None
+  | (k', v) :: tl => if str_eqb k k' then Some v else sget tl k
+  end.
+Definition ssub (a b : sgroups) : bool :=
+  forallb (fun kv => match sget b (fst kv) with Some v => ostr_eqb v (snd kv) | None => false end) a.
+Fixpoint ssame (a b : sgroups) : bool :=
+  match a, b with
+  | [], [] => true
+  | (k, v) :: a', (k', v') :: b' => str_eqb k k' && ostr_eqb v v' && ssame a' b'
+  | _, _ => false
+  end.
+Definition sgroups_eqb (a b : sgroups) : bool := ssame a b || (ssub a b && ssub b a).
 
 Definition outcome_eqb (a b : outcome) : bool :=
   match a, b with
@@ -66,7 +86,7 @@ Definition outcome_eqb (a b : outcome) : bool :=
   | OOptions l1, OOptions l2 => strs_eqb l1 l2
   | O405 l1, O405 l2 => strs_eqb l1 l2
   | O400, O400 => true
-  | OSink i1 g1, OSink i2 g2 => N.eqb i1 i2 && params_eqb (groups_as_params g1) (groups_as_params g2)
+  | OSink i1 g1, OSink i2 g2 => N.eqb i1 i2 && sgroups_eqb g1 g2
   | OStatic i1, OStatic i2 => N.eqb i1 i2
   | O404, O404 => true
   | _, _ => false
